@@ -298,7 +298,7 @@ func (app *App) addPrefixToRoute(prefix string, route *Route) *Route {
 	// The prefix may carry parameters of its own: the names are those of the whole path
 	route.Params = parsedRaw.params
 	route.root = route.path == "/"
-	route.star = route.path == "/*"
+	route.star = route.path == "/*" && prettyPath == route.path // `/\*` is a literal, see register
 
 	return route
 }
@@ -372,7 +372,8 @@ func (app *App) register(methods []string, pathRaw string, group *Group, handler
 		}
 
 		isUse := method == methodUse
-		isStar := pathClean == "/*"
+		// an escaped star (`/\*`) is the literal path "/*", not the catch-all
+		isStar := pathClean == "/*" && pathPretty == pathClean
 		isRoot := pathClean == "/"
 
 		route := Route{
